@@ -146,6 +146,19 @@ func runC08(c *Ctx) {
 		})
 		c.Ob("ORDER-INDEPENDENT", "bufcas.newManifest/sorts", nm.Decl.Pos(), sorted, false, "newManifest sorts its nodes (sort-before-use is an R-MAPORDER obligation of C02): %v", sorted)
 	}
+	{
+		var bp []*packages.Package
+		for _, rel := range []string{"private/bufpkg/bufcas", "private/bufpkg/bufmodule"} {
+			if q := p.Pkg(rel); q != nil {
+				bp = append(bp, q)
+			}
+		}
+		c08ByteOrder(c, bp)
+		if q := p.Pkg("private/bufpkg/bufmodule"); q != nil {
+			c08DepsUnfiltered(c, q)
+		}
+		ruleOnceResultLost(c, "ONCE-RESULT-LOST", bp)
+	}
 	if b4 := p.Func("private/bufpkg/bufmodule", "getB4Digest"); b4 != nil {
 		// the side files are iterated from a literal slice
 		lit := false
